@@ -53,6 +53,19 @@ var c03Spec = &reftype.Host{
 				},
 				Default: []string{"base"},
 			},
+			// methods that have to carry a modifier
+			"Device": {
+				Methods: map[string]reftype.TemplateMethod{
+					"status":    {Ret: hs.TStr, Mod: "pub"},
+					"on_change": {Params: []hs.Field{{Name: "value", T: hs.TInt}}, Mod: "event"},
+					"reset":     {},
+				},
+				Capabilities: map[string]reftype.Capability{
+					"base":      {Requires: []string{"status", "on_change"}},
+					"resetting": {Requires: []string{"reset"}},
+				},
+				Default: []string{"base"},
+			},
 		},
 	},
 	Triggers: map[string]map[string]*reftype.Trigger{
